@@ -434,6 +434,7 @@ theorem effective_perm (lang : Lang) (ds ds' : List Dict) (nd : ∀ d ∈ ds, Is
     simp only [effective]
     rw [ih (fun d hdm => nd d (List.mem_cons_of_mem _ hdm))]
     have h1 := nd _ List.mem_cons_self
+    unfold lookupV
     rw [lookup_perm (keys_filter_nodup h1 _) (hd.filter _) k]
 
 theorem typ_merge_order_free_holds : typ_merge_order_free := by
@@ -461,15 +462,15 @@ theorem lookup_append (k : Str) (a b : Dict) :
     by_cases h : k2 = k <;> simp [lookup, h, ih]
 
 theorem effective_flatten (lang : Lang) (ds : List Dict) (nd : IsDict ds.flatten) (k : Str) :
-    effective lang ds k = lookup k (ds.flatten.filter (keptB lang)) := by
+    effective lang ds k = lookupV lang ds.flatten k := by
   induction ds with
-  | nil => simp [effective, lookup]
+  | nil => simp [effective, lookupV, lookup]
   | cons d ds ih =>
     have nd2 : IsDict ds.flatten := by
       unfold IsDict Dict.keys at *
       simp only [List.flatten_cons, List.map_append] at nd
       exact (List.nodup_append.mp nd).2.1
-    simp only [effective, ih nd2, List.flatten_cons, List.filter_append, lookup_append]
+    simp only [effective, ih nd2, lookupV, List.flatten_cons, List.filter_append, lookup_append]
     cases h1 : lookup k (List.filter (keptB lang) d) with
     | none => cases lookup k (List.filter (keptB lang) ds.flatten) <;> rfl
     | some v =>
@@ -495,27 +496,48 @@ theorem typ_split_equiv_holds : typ_split_equiv := by
   rw [effective_flatten lang ds nd k]
   simp [effective]
 
-/-- **C11.d3** a later valid value replaces an earlier one -/
+/-- **C11.d3** a later valid value replaces an earlier one (what is stored is the value itself, or the boolean a
+    numeric 0 / 1 is equal to: `normVal`) -/
 def typ_later_wins : Prop :=
   ∀ (lang : Lang) (ds : List Dict) (d : Dict) (k : Str) (v : Val), (∀ x ∈ ds ++ [d], IsDict x) →
-    (k, v) ∈ d → entryKept lang k v = true → flagAfter lang (ds ++ [d]) k = some v
+    (k, v) ∈ d → entryKept lang k v = true →
+      flagAfter lang (ds ++ [d]) k = some (normVal lang k v) ∧
+      ((v.isBool || v.isStr) = true → flagAfter lang (ds ++ [d]) k = some v)
 
 theorem effective_snoc (lang : Lang) (ds : List Dict) (d : Dict) (k : Str) :
     effective lang (ds ++ [d]) k =
-      (match lookup k (d.filter (keptB lang)) with | some v => some v | none => effective lang ds k) := by
+      (match lookupV lang d k with | some v => some v | none => effective lang ds k) := by
   induction ds with
-  | nil => simp [effective]; cases lookup k (List.filter (keptB lang) d) <;> rfl
+  | nil => simp [effective]; cases lookupV lang d k <;> rfl
   | cons x t ih =>
     simp only [List.cons_append, effective, ih]
-    cases lookup k (List.filter (keptB lang) d) <;> rfl
+    cases lookupV lang d k <;> rfl
+
+theorem normVal_of_bool_str (lang : Lang) (k : Str) (v : Val) (hv : (v.isBool || v.isStr) = true) : normVal lang k v = v := by
+  unfold normVal needsNorm
+  cases lookup k Gen.TypConsts.allowedTypes with
+  | none => simp
+  | some _ => simp only; split <;> simp [hv]
 
 theorem typ_later_wins_holds : typ_later_wins := by
   intro lang ds d k v nd hm hk
-  rw [flagAfter_eq lang _ nd, effective_snoc]
   have ndd : IsDict d := nd d (by simp)
-  have : lookup k (d.filter (keptB lang)) = some v :=
-    lookup_of_mem_nodup (keys_filter_nodup ndd _) (List.mem_filter.mpr ⟨hm, by simpa [keptB] using hk⟩)
+  have : lookupV lang d k = some (normVal lang k v) := by
+    unfold lookupV
+    rw [lookup_of_mem_nodup (keys_filter_nodup ndd _) (List.mem_filter.mpr ⟨hm, by simpa [keptB] using hk⟩)]
+    rfl
+  have e : flagAfter lang (ds ++ [d]) k = some (normVal lang k v) := by
+    rw [flagAfter_eq lang _ nd, effective_snoc, this]
+  exact ⟨e, fun hv => by rw [e, normVal_of_bool_str lang k v hv]⟩
+
+/-- since 6301216 a numeric `0` is stored as `False`: "False equals absent" holds for it too (with
+    `typ_false_eq_absent` below: every reader treats the stored `False` as an absent flag) -/
+theorem typ_zero_stored_false (lang : Lang) (ds : List Dict) (d : Dict) (k : Str) (nd : ∀ x ∈ ds ++ [d], IsDict x)
+    (hm : (k, Val.i 0) ∈ d) (hk : entryKept lang k (.i 0) = true) (hn : needsNorm lang (k, .i 0) = true) :
+    flagAfter lang (ds ++ [d]) k = some (.b false) := by
+  have := (typ_later_wins_holds lang ds d k (.i 0) nd hm hk).1
   rw [this]
+  simp [normVal, hn, Val.truthy]
 
 /-- **C11.d4** a flag set to `False` reads like an absent flag, for every reader idiom that the sources use -/
 def typ_false_eq_absent : Prop :=
@@ -557,7 +579,8 @@ theorem typ_invalid_ignored_holds : typ_invalid_ignored := by
       cases this
       simp [keptB, hk] at m
   refine ⟨?_, ?_, ?_, ?_⟩
-  · rw [flagAfter_eq lang _ nd, flagAfter_eq lang ds nds, effective_snoc, hnone]
+  · rw [flagAfter_eq lang _ nd, flagAfter_eq lang ds nds, effective_snoc]
+    simp only [lookupV, hnone, Option.map_none]
   · intro k' hne
     have nd2 : ∀ x ∈ ds ++ [Dict.del d k], IsDict x := by
       intro x hx
@@ -572,7 +595,7 @@ theorem typ_invalid_ignored_holds : typ_invalid_ignored := by
         rw [List.filter_filter]; congr 1; funext a; exact Bool.and_comm _ _
       rw [this]
       exact lookup_filter_ne _ k' k hne
-    rw [this]
+    simp only [lookupV, this]
   · rw [validate_snd]
     apply List.length_pos_of_mem (a := (k, v))
     apply List.mem_filter.mpr
@@ -598,6 +621,10 @@ example : insertOrder [0, 2] [3, 1] = [0, 1, 2, 3] := by decide
 /-- test: a French dict with a legal, an illegal and an unknown entry, then a later call -/
 example : flagAfter .fr [[(s "neg", .s (s "plus")), (s "mod", .s (s "xx")), (s "foo", .b true)], [(s "pas", .b true)]]
     (s "neg") = some (.s (s "plus")) := by decide
+
+/-- test: `mod: 0` given after `mod: "poss"` is accepted (0 == False) and stored as `False` -/
+example : flagAfter .en [[(s "mod", .s (s "poss"))], [(s "mod", .i 0), (s "exc", .i 1)]] (s "mod") = some (.b false) ∧
+    flagAfter .en [[(s "mod", .s (s "poss"))], [(s "mod", .i 0), (s "exc", .i 1)]] (s "exc") = some (.b true) := by decide
 
 
 /-- the store in which the first link run of `Phrase(k, kids)` takes place is `preLink (preMk …) p last none` -/
